@@ -594,7 +594,7 @@ def gen_pure_case(rng, tier):
 
 
 def generate(rng, tier):
-    n_font, n_pure = (288, 150) if tier == "quick" else (4000, 3000)
+    n_font, n_pure = (432, 250) if tier == "quick" else (6000, 4000)
     for i in range(n_font):
         yield gen_font_case(rng, tier, i)
     for _ in range(n_pure):
